@@ -40,6 +40,58 @@ def regen():
     return {**tabutil.regen_tables(), **srctie.regen("C07"), **srctie.regen("C07Lib")}
 
 
+def batch_compositions(ctx, tau, taus_mod, ver, frac, rng):
+    """"For every sampled tau …": the clauses hold for every event whatever else is in the batch.  Emergence angles fall into
+    four classes the tau stage treats differently - exactly 0, below the first table node, inside the table, above the last node -
+    and a batch may hold any non-empty combination of them (a single horizontal event, a scan in whole degrees starting at 0,
+    grazing-only batches, …).  Every combination is evaluated, as a batch and one event at a time."""
+    gb = np.asarray(tau.tau_cdf_grid["beta_rad"], dtype=np.float64)
+    classes = {
+        "zero": lambda k: np.zeros(k),
+        "below": lambda k: rng.uniform(0.02, 0.98, k) * gb[0],
+        "inside": lambda k: rng.uniform(gb[0], gb[-1], k),
+        "above": lambda k: rng.uniform(float(np.nextafter(gb[-1], 4.0)), np.pi / 2, k),
+    }
+    names = list(classes)
+    for bits in range(1, 1 << len(names)):
+        members = [nm for j, nm in enumerate(names) if bits >> j & 1]
+        parts, labels = [], []
+        for nm in members:
+            k = int(rng.integers(1, 4))
+            parts.append(classes[nm](k)); labels += [nm] * k
+        betas = np.concatenate(parts)
+        perm = rng.permutation(len(betas))
+        betas, labels = betas[perm], [labels[i] for i in perm]
+        loge = rng.choice([6.0, 7.3, 9.0, 10.25, 12.0], len(betas)).astype(np.float64)
+        evals = [("batch", betas, loge)] + [(f"single[{i}]", betas[i:i + 1], loge[i:i + 1]) for i in range(len(betas))]
+        for how, b_, l_ in evals:
+            ctx.count("taus_batch_compositions")
+            with np.errstate(all="ignore"):
+                try:
+                    tb, tl, te, se, pe = tau(b_.copy(), l_.copy())
+                except Exception as e:  # noqa: BLE001
+                    ctx.violation("Taus.__call__", "raises-on-valid-batch", f"{type(e).__name__}: {str(e)[:120]} for a batch of valid angles and energies",
+                                  {"version": ver, "classes_in_batch": members, "evaluated_as": how, "betas": [float(x) for x in b_], "log_e_nu": [float(x) for x in l_]})
+                    break
+            ok = np.isfinite(tl) & np.isfinite(tb) & np.isfinite(se) & (tl >= 1.0) & (tb > 0.0) & (tb <= 1.0) \
+                & np.isclose(tl * taus_mod.massTau, te, rtol=1e-12, atol=0) & np.isclose(se * 1e8, frac * te, rtol=1e-12, atol=0)
+            # the property quantifies over angles in [0, 42 deg]: above the last node the stage returns 2^-23 E_nu by design (below the
+            # tau mass for low E_nu), so such events are in the batch as companions but their kinematics are not judged
+            labs = labels if how == "batch" else [labels[int(how[7:-1])]]
+            ok = ok | np.array([lb == "above" for lb in labs])
+            ctx.case(("composition", ver, tuple(members), how.split("[")[0]))
+            if not ok.all():
+                i = int(np.nonzero(~ok)[0][0])
+                lab = labels[i] if how == "batch" else labels[int(how[7:-1])]
+                ctx.violation("Taus.__call__", "kinematics-depend-on-batch-composition",
+                              f"an event with an emergence angle of class '{lab}' gets gamma = {float(tl[i])!r}, speed = {float(tb[i])!r}, shower energy = {float(se[i])!r} "
+                              f"(tau energy {float(te[i])!r}) in a batch holding the classes {members}",
+                              {"version": ver, "etau_frac": frac, "classes_in_batch": members, "evaluated_as": how, "index": i,
+                               "betas": [float(x) for x in b_], "log_e_nu": [float(x) for x in l_],
+                               "tauEnergy": float(te[i]), "tauLorentz": float(tl[i]), "tauBeta": float(tb[i]), "showerEnergy": float(se[i])})
+                return
+
+
 def run(ctx: Ctx):
     import srctie
     nss, EAS, taus_mod = _objects()
@@ -125,6 +177,8 @@ def run(ctx: Ctx):
                     # C18.shipped_min_tau_energy_v*: impossible for the modelled sampler on the shipped tables
                     ctx.disagree("C07.min-energy-theorem", {**case, "theorem": "C18.shipped_min_tau_energy_v" + ver})
             ctx.count(f"taus_v{ver}", n)
+            if frac == 0.5:
+                batch_compositions(ctx, tau, taus_mod, ver, frac, rng)
             # a copied / pickled Taus object (what a worker process receives) goes by the same configuration as the original
             if ver == "3":
                 import copy
